@@ -21,6 +21,8 @@ def run():
     w.index.add_module(snippets)
     fails, n_cases, n_fn = [], 0, 0
     for name, fn in inspect.getmembers(snippets, inspect.isfunction):
+        if fn.__module__ != snippets.__name__ or name.startswith("_"):
+            continue
         fi = w.index.lookup_real(fn)
         n_fn += 1
         # enumerate all symbolic paths
